@@ -392,7 +392,7 @@ def rule_restore_flush(ctx: Ctx, repo: Repo) -> None:
     if len(yields) != 1:
         raise AnalysisError("trace_calls does not have exactly one yield")
     y = yields[0]
-    install = [(n, c) for n, c in setp if c.args and is_call_to(c.args[0], "CallTracer")]
+    install = [(n, c) for n, c in setp if c.args and all(is_call_to(r, "CallTracer") for r, _, _ in g.origins(c.args[0], n.id))]
     restore = [(n, c) for n, c in setp if (n, c) not in install]
     ctx.check(len(install) == 1, "R-C03.3", tc.fq, "exactly one installation of the tracer", construct=f"{len(install)} installing sys.setprofile calls")
     for n, c in restore:
